@@ -17,7 +17,7 @@ use nom::combinator::opt;
 use num_complex::Complex64;
 
 use crate::expression::{FunctionCallExpression, InfixExpression, PrefixExpression};
-use crate::parser::InternalParserResult;
+use crate::parser::{InternalParseError, InternalParserResult, ParserErrorKind};
 use crate::{
     expected_token,
     expression::{Expression, ExpressionFunction, InfixOperator, PrefixOperator},
@@ -71,11 +71,31 @@ fn get_precedence(input: ParserInput) -> Precedence {
 /// Parse an expression at the head of the current input, for as long as the expression continues.
 /// Return an error only if the first token(s) do not form an expression.
 pub(crate) fn parse_expression(input: ParserInput) -> InternalParserResult<Expression> {
-    parse(input, Precedence::Lowest)
+    parse(input, Precedence::Lowest, 0)
 }
 
+/// How deeply an expression may nest (groups, function calls, and the operands of a chain of infix
+/// operators all count).
+///
+/// The parser, and nearly everything that is later done with an [`Expression`] (printing,
+/// evaluating, even dropping it), recurses once per level, so an input such as a hundred thousand
+/// opening parentheses would otherwise exhaust the stack and abort the process.
+const MAX_EXPRESSION_DEPTH: usize = 512;
+
 /// Recursively parse an expression as long as operator precedence is satisfied.
-fn parse(input: ParserInput, precedence: Precedence) -> InternalParserResult<Expression> {
+fn parse(
+    input: ParserInput,
+    precedence: Precedence,
+    depth: usize,
+) -> InternalParserResult<Expression> {
+    if depth > MAX_EXPRESSION_DEPTH {
+        return Err(nom::Err::Failure(InternalParseError::from_kind(
+            input,
+            ParserErrorKind::ExpressionTooDeeplyNested {
+                limit: MAX_EXPRESSION_DEPTH,
+            },
+        )));
+    }
     let (input, prefix) = opt(parse_prefix)(input)?;
     let (input, maybe_immediate_value) = opt(parse_immediate_value)(input)?;
 
@@ -86,8 +106,8 @@ fn parse(input: ParserInput, precedence: Precedence) -> InternalParserResult<Exp
             Some((Token::Variable(name), remainder)) => {
                 Ok((remainder, Expression::Variable(name.clone())))
             }
-            Some((Token::Identifier(_), _)) => parse_expression_identifier(input),
-            Some((Token::LParenthesis, remainder)) => parse_grouped_expression(remainder),
+            Some((Token::Identifier(_), _)) => parse_expression_identifier(input, depth),
+            Some((Token::LParenthesis, remainder)) => parse_grouped_expression(remainder, depth),
             Some((token, _)) => expected_token!(input, token, "expression".to_owned()),
         })?;
 
@@ -98,11 +118,14 @@ fn parse(input: ParserInput, precedence: Precedence) -> InternalParserResult<Exp
         });
     }
 
+    // Every operator of a chain nests the expression built so far one level deeper.
+    let mut chain_length = 0;
     while get_precedence(input) > precedence {
         match super::first_token(input) {
             None => return Ok((input, left)),
             Some(Token::Operator(_)) => {
-                let (remainder, expression) = parse_infix(input, left)?;
+                chain_length += 1;
+                let (remainder, expression) = parse_infix(input, left, depth + chain_length)?;
                 left = expression;
                 input = remainder;
             }
@@ -138,9 +161,10 @@ pub(super) fn parse_immediate_value(input: ParserInput) -> InternalParserResult<
 fn parse_function_call<'a>(
     input: ParserInput<'a>,
     function: ExpressionFunction,
+    depth: usize,
 ) -> InternalParserResult<'a, Expression> {
     let (input, _) = token!(LParenthesis)(input)?;
-    let (input, expression) = parse(input, Precedence::Lowest)?; // TODO: different precedence?
+    let (input, expression) = parse(input, Precedence::Lowest, depth + 1)?; // TODO: different precedence?
     let (input, _) = token!(RParenthesis)(input)?;
     Ok((
         input,
@@ -158,7 +182,10 @@ fn parse_function_call<'a>(
 /// 1. Memory references with brackets
 /// 2. Special function and constant identifiers
 /// 3. Anything else is considered to be a memory reference without index brackets
-fn parse_expression_identifier(input: ParserInput) -> InternalParserResult<Expression> {
+fn parse_expression_identifier(
+    input: ParserInput,
+    depth: usize,
+) -> InternalParserResult<Expression> {
     let (input, memory_reference) = opt(parse_memory_reference_with_brackets)(input)?;
     if let Some(memory_reference) = memory_reference {
         return Ok((input, Expression::Address(memory_reference)));
@@ -167,13 +194,13 @@ fn parse_expression_identifier(input: ParserInput) -> InternalParserResult<Expre
     match super::split_first_token(input) {
         None => unexpected_eof!(input),
         Some((Token::Identifier(ident), remainder)) => match ident.to_lowercase().as_str() {
-            "cis" => parse_function_call(remainder, ExpressionFunction::Cis),
-            "cos" => parse_function_call(remainder, ExpressionFunction::Cosine),
-            "exp" => parse_function_call(remainder, ExpressionFunction::Exponent),
+            "cis" => parse_function_call(remainder, ExpressionFunction::Cis, depth),
+            "cos" => parse_function_call(remainder, ExpressionFunction::Cosine, depth),
+            "exp" => parse_function_call(remainder, ExpressionFunction::Exponent, depth),
             "i" => Ok((remainder, Expression::Number(imag!(1f64)))),
             "pi" => Ok((remainder, Expression::PiConstant())),
-            "sin" => parse_function_call(remainder, ExpressionFunction::Sine),
-            "sqrt" => parse_function_call(remainder, ExpressionFunction::SquareRoot),
+            "sin" => parse_function_call(remainder, ExpressionFunction::Sine, depth),
+            "sqrt" => parse_function_call(remainder, ExpressionFunction::SquareRoot, depth),
             // Only the reserved words above are case-insensitive: a memory region keeps its spelling.
             _ => Ok((
                 remainder,
@@ -189,8 +216,8 @@ fn parse_expression_identifier(input: ParserInput) -> InternalParserResult<Expre
 
 /// To be called following an opening parenthesis, this will parse the expression to its end
 /// and then expect a closing right parenthesis.
-fn parse_grouped_expression(input: ParserInput) -> InternalParserResult<Expression> {
-    let (input, expression) = parse(input, Precedence::Lowest)?;
+fn parse_grouped_expression(input: ParserInput, depth: usize) -> InternalParserResult<Expression> {
+    let (input, expression) = parse(input, Precedence::Lowest, depth + 1)?;
     match super::split_first_token(input) {
         None => unexpected_eof!(input),
         Some((Token::RParenthesis, remainder)) => Ok((remainder, expression)),
@@ -202,7 +229,11 @@ fn parse_grouped_expression(input: ParserInput) -> InternalParserResult<Expressi
 
 /// Parse an infix operator and then the expression to the right of the operator, and return the
 /// resulting infixed expression.
-fn parse_infix(input: ParserInput, left: Expression) -> InternalParserResult<Expression> {
+fn parse_infix(
+    input: ParserInput,
+    left: Expression,
+    depth: usize,
+) -> InternalParserResult<Expression> {
     match super::split_first_token(input) {
         None => unexpected_eof!(input),
         Some((Token::Operator(token_operator), remainder)) => {
@@ -214,7 +245,7 @@ fn parse_infix(input: ParserInput, left: Expression) -> InternalParserResult<Exp
                 Operator::Star => InfixOperator::Star,
             };
             let precedence = Precedence::from(token_operator);
-            let (remainder, right) = parse(remainder, precedence)?;
+            let (remainder, right) = parse(remainder, precedence, depth)?;
             let infix_expression = Expression::Infix(InfixExpression {
                 left: ArcIntern::new(left),
                 operator: expression_operator,
